@@ -140,3 +140,21 @@ Theorem C09_split_ref_frame : forall K l h t hs ts, split_ref (length l) K = Ok 
              view_read b1 t = Some (skipn K l) /\
              view_write b1 t ts = Some (of_list (hs ++ ts)).
 Proof. exact split_ref_frame. Qed.
+
+(* ---- tie to the current source: regenerated on every run by tools/ga2coq (coq/gen) ---- *)
+From Coq Require Import String.
+From GA Require Import Guards GuardTie.
+From GAGen Require Import GenGuards GenConstFns.
+Local Open Scope Z_scope.
+
+(* remove / swap_remove as they stand in src/sequence.rs now: the bounds assert lets exactly
+   idx < N through (panicking otherwise) and the shift count is N - idx - 1 *)
+Theorem C09_source_remove_guard : forall idx N,
+  rejects remove_guard (env1 "idx" idx) N = negb (idx <? N) /\ fails_by_panic remove_guard = true /\
+  rejects swap_remove_guard (env1 "idx" idx) N = negb (idx <? N) /\ fails_by_panic swap_remove_guard = true.
+Proof. exact tie_remove_guard. Qed.
+
+Theorem C09_source_remove_count : forall idx N,
+  SeqOps.remove_count N idx =
+  (if (idx <=? N) && (1 <=? N - idx) then Some (geval (env1 "idx" idx) N remove_copy_count) else None).
+Proof. exact tie_remove_count. Qed.
